@@ -59,7 +59,7 @@ func doSession(rq *Req) *Resp {
 	var obs, shared []string
 	switch rq.Embed {
 	case "", "playground", "evalenv":
-		it := newInterp("")
+		it := newInterpIO("", false)
 		it.detail = true
 		shared = append(shared, sharedProjection(it))
 		dir := ""
